@@ -4,17 +4,18 @@ Property theorems only (model and spec: KinModel/Response.lean; helper lemmas: K
 
 Full-strength statement (the goal shape):
     ∀ canon o i, (validateResponse canon reg o i).err = none ↔ Accept canon reg o i
-It is proved below as `accept_iff_partial` outside three decidable exclusion classes in which the code
+It is proved below as `accept_iff_partial` outside two decidable exclusion classes in which the code
 really deviates from the property text (each with a kernel-checked witness, replayed on the Go code):
   HdrDecodedNil     a present header whose decoding gives no value is validated as `null`
   HdrArrayNoItems   a present header whose schema is an array without `items` makes the decoder dereference nil
-  EmptyMapStrict    empty responses map under IncludeResponseStatus
-Two former classes were repaired in the repository; their exclusions are gone and the former witnesses are
+Three former classes were repaired in the repository; their exclusions are gone and the former witnesses are
 regression theorems (model = spec on them, inputs kept in corpus/C08):
   WriteOnlyNull     (F-C08-4, commit e80060c) a write-only property carrying `null` in the body was not reported;
                     `visit_asrep_iff` holds at full strength; `writeOnly_null_rejected*`
   HdrNotAsResponse  (F-C08-2, commit 35101a0) headers were visited without VisitAsResponse;
                     `header_writeOnly_rejected`, `header_required_writeOnly_absent_accepted`
+  EmptyMapStrict    (F-C08-3, commit c48114b) an empty responses map passed under IncludeResponseStatus;
+                    `empty_map_strict_rejected`; `undefined_status` no longer needs a non-empty map
 -/
 import KinModel.Lemmas.C08
 import KinModel.ResponseReg
@@ -309,13 +310,12 @@ theorem redirects_not_checked (canon : String → String) (reg : List (String ×
 
 /-- A status without definition passes unless strict status checking is requested. -/
 theorem undefined_status (canon : String → String) (reg : List (String × String)) (o : Opts) (i : Input)
-    (hm : i.method ≠ "HEAD") (hs : skipStatus i.status = false) (he : i.responses ≠ [])
+    (hm : i.method ≠ "HEAD") (hs : skipStatus i.status = false)
     (hn : selected i.responses i.status = none) :
     (validateResponse canon reg o i).err = if o.strict then some .statusNotSupported else none := by
   unfold validateResponse
-  have : i.responses.isEmpty = false := by cases h : i.responses <;> simp_all
   rw [firstSome_statusKeys, hn]
-  cases o.strict <;> simp [hm, hs, this]
+  cases o.strict <;> cases i.responses.isEmpty <;> simp [hm, hs]
 
 theorem acceptB_iff (canon : String → String) (reg : List (String × String)) (o : Opts) (i : Input) :
     acceptB canon reg o i = true ↔ Accept canon reg o i := by
@@ -338,7 +338,7 @@ theorem acceptB_iff (canon : String → String) (reg : List (String × String)) 
     · cases o.excludeBody <;> simp
 
 /-- **C08 main theorem.** Full strength: `(validateResponse canon reg o i).err = none ↔ Accept canon reg o i` for every
-response map, status, header set, content type, body, decoding outcome and option set. Proved outside the three
+response map, status, header set, content type, body, decoding outcome and option set. Proved outside the two
 exclusion classes (each has a witness below): the response passes exactly when it is skipped (HEAD, 301/304/307/308),
 or no entry is selected and strictness is off, or — against the entry selected by exact code, class pattern,
 default — every declared header other than Content-Type is present-and-valid or absent-and-optional, and
@@ -348,7 +348,7 @@ theorem accept_iff_partial (canon : String → String) (reg : List (String × St
     (hx : Excluded canon o i = false) :
     (validateResponse canon reg o i).err = none ↔ Accept canon reg o i := by
   simp only [Excluded, Bool.or_eq_false_iff] at hx
-  obtain ⟨⟨hx1, hx2⟩, hx3⟩ := hx
+  obtain ⟨hx1, hx2⟩ := hx
   by_cases hm : i.method = "HEAD"
   · simp [validateResponse, Accept, hm, Skipped]
   · cases hs : skipStatus i.status with
@@ -363,20 +363,20 @@ theorem accept_iff_partial (canon : String → String) (reg : List (String × St
         · have := (skipStatus_iff _).mpr h; simp [hs] at this
       unfold Accept
       simp only [hns, false_or]
-      cases he : i.responses.isEmpty with
-      | true =>
+      have hempty : i.responses.isEmpty = true → selected i.responses i.status = none := by
+        intro he
         have hnil : i.responses = [] := List.isEmpty_iff.mp he
-        simp only [EmptyMapStrict, he, Bool.true_and] at hx3
-        have hsel : selected i.responses i.status = none := by
-          rw [hnil]; unfold selected statusKeys
-          cases classKey i.status <;> simp [firstSome, lookup]
-        simp [validateResponse, hm, hs, he, hsel, hx3]
-      | false =>
-        cases hsel : selected i.responses i.status with
-        | none =>
-          have := undefined_status canon reg o i hm hs (by intro h; simp [h] at he) hsel
+        rw [hnil]; unfold selected statusKeys
+        cases classKey i.status <;> simp [firstSome, lookup]
+      cases hsel : selected i.responses i.status with
+      | none =>
+          have := undefined_status canon reg o i hm hs hsel
           rw [this]; cases o.strict <;> simp
-        | some r =>
+      | some r =>
+          have he : i.responses.isEmpty = false := by
+            cases h : i.responses.isEmpty with
+            | false => rfl
+            | true => have := hempty h; simp [hsel] at this
           rw [validateResponse_selected canon reg o i r hm hs he hsel]
           have hex : ∀ h, h ∈ r.headers → h.name ≠ "Content-Type" →
               hdrDecodedNil canon i.hdrs h = false ∧ hdrArrayNoItems canon i.hdrs h = false := by
@@ -621,11 +621,14 @@ theorem witness_HdrArrayNoItems :
       acceptB id genReg {} i = false := by
   decide
 
-/-- Empty responses map, IncludeResponseStatus: accepted although no entry defines the status. -/
-theorem witness_EmptyMapStrict :
+/-- Regression (F-C08-3, fixed): an empty responses map under IncludeResponseStatus is rejected by the model and by
+the spec ("status is not supported") and lies in no exclusion class; without strictness it passes. -/
+theorem empty_map_strict_rejected :
     let i := inp [] [] .err
-    EmptyMapStrict { strict := true } i = true ∧ (validateResponse id genReg { strict := true } i).err = none ∧
-      acceptB id genReg { strict := true } i = false := by
+    Excluded id { strict := true } i = false ∧
+      (validateResponse id genReg { strict := true } i).err = some .statusNotSupported ∧
+      acceptB id genReg { strict := true } i = false ∧
+      (validateResponse id genReg {} i).err = none ∧ acceptB id genReg {} i = true := by
   decide
 
 /-- Regression (F-C08-4, fixed): body `{"pw": null}` against a schema whose nullable property `pw` is write-only
